@@ -161,6 +161,9 @@ func c08(r *report.Run) {
 		cleanup()
 		r.Note("overlay build not available (%v): package-level state is covered by the race pass only", err)
 	}
+	if r.Tier == "thorough" && os.Getenv("VERIF_BUDGET_S") == "" {
+		r.Deadline = r.Deadline.Add(60 * time.Minute) // 105 minutes: the run scenarios at the higher bound take about 45 of them
+	}
 	if !vmstep.Available() {
 		r.Note("debug stepping seam not found: scheduler pass impossible")
 		r.Set("exhaustive", false)
